@@ -1,6 +1,7 @@
 package main
 
 import (
+	"github.com/hujm2023/go-sms-protocol/smgp"
 	"math/rand"
 	"reflect"
 	"strings"
@@ -173,6 +174,7 @@ func genWire(g *genCtx) {
 		emit(c)
 	}
 	if g.part == "" || g.part == "rt" {
+		emit(Case{"k": "tags", "type": "smgp30.Submit"})
 		for _, tn := range typeNames {
 			base := defaultAssign(r, tn, false)
 			rt(tn, base)
@@ -588,6 +590,20 @@ var usedObjs = map[string]codecPDU{}
 func runWire(c Case, tr *Tracer) {
 	tn := caseStr(c, "type")
 	switch caseStr(c, "k") {
+	case "tags":
+		// the names the library exports for the SMGP optional parameters, as numbers, and an image built through each name
+		names := []string{"TP_pid", "TP_udhi", "LinkID", "ChargeUserType", "ChargeTermType", "ChargeTermPseudo", "DestTermType", "DestTermPseudo", "PkTotal",
+			"PkNumber", "SubmitMsgType", "SPDealReslt", "SrcTermType", "SrcTermPseudo", "NodesCount", "MsgSrc", "SrcType", "MServiceID"}
+		vals := []smgp.Tag{smgp.TAG_TP_pid, smgp.TAG_TP_udhi, smgp.TAG_LinkID, smgp.TAG_ChargeUserType, smgp.TAG_ChargeTermType, smgp.TAG_ChargeTermPseudo,
+			smgp.TAG_DestTermType, smgp.TAG_DestTermPseudo, smgp.TAG_PkTotal, smgp.TAG_PkNumber, smgp.TAG_SubmitMsgType, smgp.TAG_SPDealResult, smgp.TAG_SrcTermType,
+			smgp.TAG_SrcTermPseudo, smgp.TAG_NodesCount, smgp.TAG_MsgSrc, smgp.TAG_SrcType, smgp.TAG_MServiceID}
+		rows := []interface{}{}
+		for i, nm := range names {
+			opts := smgp.Options{}
+			opts.Add(smgp.NewOption(vals[i], []byte{0x5A}))
+			rows = append(rows, Ev{"name": nm, "value": int(vals[i]), "image": B(opts.Serialize())})
+		}
+		tr.emit(Ev{"ev": "TagTable", "rows": rows, "site": "smgp.TAG_*"})
 	case "rt":
 		pm, _ := c["p"].(map[string]interface{})
 		a := assignFromJSON(tn, pm)
@@ -615,6 +631,12 @@ func runWire(c Case, tr *Tracer) {
 				e["site"] = tn + ".IDecode.hang"
 			} else if derr == nil {
 				e["decerr"] = false
+				// the read buffer is used for the next frame before the application looks at the PDU
+				img2 := append([]byte{}, img...)
+				for i := range img {
+					img[i] = 0xEE
+				}
+				img = img2
 				e["p2"] = project(tn, fresh)
 				e["hlen2"] = headerLen(fresh)
 				// the package's dispatcher is the other way into the same decoder: both must read the image alike
@@ -684,6 +706,8 @@ func runWire(c Case, tr *Tracer) {
 					e["dec2err"] = false
 					e["p2"] = project(tn, p2)
 				}
+				// a relay adds its own parameters to what it forwards (after this PDU was judged); later PDUs are not its business
+				callerMutates(p1)
 			}
 		}
 		tr.emit(e)
@@ -711,6 +735,16 @@ func callerMutates(obj interface{}) {
 				}
 			}
 		case reflect.Map:
+			// octets the owner can reach through the entries' accessors are the owner's too
+			for _, k := range v.MapKeys() {
+				if m := v.MapIndex(k).MethodByName("Value"); m.IsValid() && m.Type().NumIn() == 0 && m.Type().NumOut() == 1 {
+					if b, ok := m.Call(nil)[0].Interface().([]byte); ok {
+						for i := range b {
+							b[i] = 0xEE
+						}
+					}
+				}
+			}
 			if !v.IsNil() {
 				k := reflect.New(v.Type().Key()).Elem()
 				switch k.Kind() {
